@@ -14,7 +14,7 @@ import (
 func init() {
 	register(&Property{
 		ID:          "C09",
-		Explanation: "For every public type that serves requests (http.Handler / utils.ErrorHandler implementations) or owns a mutex, every exported method is taken as a concurrent entry point with the receiver as the shared object. An interprocedural, flow-sensitive must-lockset analysis names locks and memory locations by access paths from the receiver, follows module callees in the caller's context (including goroutines started with `go`, and String() methods reached through %v logging of the receiver), and records every read and write of receiver-reachable state with the locks certainly held. R1: for every location written by some entry point, every conflicting pair of accesses (write/any, from any two entry points or the same one twice) must share a lock that excludes them (mutex, or RWMutex with the write side in exclusive mode; a reader that cleans up, e.g. RollingCounter.Count, is a writer). R2: objects reached through interfaces that are not concurrency-safe by contract (io.Writer, Meter, foreign pointer receivers such as hdrhistogram) count as written by every call. R3: every Lock is released on every path to a return. All call paths are enumerated; nothing is executed.",
+		Explanation: "For every public type that serves requests (http.Handler / utils.ErrorHandler implementations) or owns a mutex, every exported method is taken as a concurrent entry point with the receiver as the shared object. An interprocedural, flow-sensitive must-lockset analysis names locks and memory locations by access paths from the receiver, follows module callees in the caller's context (including goroutines started with `go`, and String() methods reached through %v logging of the receiver), and records every read and write of receiver-reachable state with the locks certainly held. R1: for every location written by some entry point, every conflicting pair of accesses (write/any, from any two entry points or the same one twice) must share a lock that excludes them (mutex, or RWMutex with the write side in exclusive mode; a reader that cleans up, e.g. RollingCounter.Count, is a writer). R2: objects reached through interfaces that are not concurrency-safe by contract (io.Writer, Meter, foreign pointer receivers such as hdrhistogram) count as written by every call. R3: every Lock is released on every path to a return. All call paths are enumerated; nothing is executed. R4: no self-deadlock (a lock operation on a mutex in the must-lockset; String() methods reached through %v formatting included). R5: Clone/Export snapshot methods return a fresh allocation none of whose slice/map/pointer fields (nor container elements) is taken from the receiver, also after a by-value struct copy. R6 (= C03.R6): look-up, creation, re-arming and consumption of a source's bucket set form one critical section of the limiter.",
 		NotDecided: []string{
 			"atomicity across two critical sections (check-then-act split over unlock/relock)",
 			"races inside user-supplied objects (handlers, extractors, listeners, loggers, meters supplied by the user)",
